@@ -9,6 +9,7 @@
 //!   rec lonereplier <outages> <max_attempts>  a replier with no requestor on its topic is cut; a requestor arrives afterwards
 //!   rec siblings <outages> <max_attempts>     two subscribers of one client (one shared connection) lose it together
 //!   rec midreg <sub|pub|requestor> <max_attempts>  the connection is lost again between the re-registration and its answer
+//!   rec pubfeed <outages> <max_attempts>      a publisher driven with feed() (kilobytes queued before the first flush) after each cut
 //!   rec quiet <outages> <max_attempts>        a subscriber on a topic nobody publishes to during the outages
 //!                                             (nothing resets anything in between); one message at the end
 //! Implementation line: one token per outage: `ok` (traffic after recovery was carried), `lost`, `err:<e>`;
@@ -71,6 +72,39 @@ async fn case(addr: SocketAddr, certs: &Certs, kind: &str, outages: usize, attem
                         Ok(Ok(())) => {}
                     }
                     if let Ok(Some(Ok(s))) = tokio::time::timeout(Duration::from_millis(250), sub.next()).await { if s.starts_with(&format!("m{k}.")) { res = "ok".into(); break; } }
+                }
+                out.push(res);
+            }
+        }
+        "pubfeed" => {
+            // like "pub", but after the cut the publisher is driven with feed(): several kilobytes are queued without a flush in
+            // between (the framed writer then writes to the transport from poll_ready itself), then flushed
+            let topic = format!("/verif/rec{n}");
+            let mut sub = stable.subscriber(&topic).with_decoder(StringCodec).open().await?;
+            tokio::time::sleep(Duration::from_millis(40)).await;
+            let mut publ = flaky.publisher(&topic).with_encoder(StringCodec).open().await?;
+            publ.send("before".into()).await?;
+            let _ = tokio::time::timeout(Duration::from_millis(500), sub.next()).await;
+            let filler = "f".repeat(3 * 1024);
+            for k in 0..outages {
+                flaky.verif_close_connection().await;
+                let mut res = "lost".to_string();
+                'rounds: for j in 0..6 {
+                    for i in 0..4 {
+                        match tokio::time::timeout(Duration::from_secs(3), publ.feed(format!("m{k}.{j}.{i}|{filler}"))).await {
+                            Err(_) => { res = "hang".into(); break 'rounds; }
+                            Ok(Err(e)) => { res = format!("feed:{}", errname(&e)); break 'rounds; }
+                            Ok(Ok(())) => {}
+                        }
+                    }
+                    match tokio::time::timeout(Duration::from_secs(3), publ.flush()).await {
+                        Err(_) => { res = "hang".into(); break; }
+                        Ok(Err(e)) => { res = format!("flush:{}", errname(&e)); break; }
+                        Ok(Ok(())) => {}
+                    }
+                    let mut seen = false;
+                    while let Ok(Some(Ok(s))) = tokio::time::timeout(Duration::from_millis(250), sub.next()).await { if s.starts_with(&format!("m{k}.")) { seen = true; } }
+                    if seen { res = "ok".into(); break; }
                 }
                 out.push(res);
             }
@@ -555,6 +589,7 @@ pub fn run(cfg: &Cfg) {
         cases.push("rec exhaust pub 0".into());
         cases.push("rec pub 3 1".into());
         cases.push("rec replier 6 2".into());
+        cases.push("rec pubfeed 2 3".into());
         for kind in ["sub", "pub", "requestor"] { cases.push(format!("rec midreg {kind} 4")); }
         // a backoff delay longer than the request timeout: reconnecting is not bounded by the timeout of the call that noticed the loss
         cases.push("rec requestor 2 3 slow".into());
